@@ -393,6 +393,35 @@ def r14_zone_pair(ctx):
                   "the dumper reads properties (statement %s) before/without "
                   "converting to the literal zone of the format (statement "
                   "%s)" % (read_idx, conv_idx), P6 + ("C08",))
+        # nothing else may look at the point before the last conversion
+        ALLOWED = {"truncated", "get_is_week_date", "get_is_calendar_date",
+                   "get_is_ordinal_date", "to_week_date", "to_calendar_date",
+                   "to_ordinal_date", "to_utc", "to_time_zone"}
+        rebind_idx = [i for i, st in enumerate(df.node.body) if any(
+            isinstance(n, ast.Assign) and any(U(t) == tpn for t in n.targets)
+            for n in ast.walk(st))]
+        early = []
+        if rebind_idx:
+            last_conv = max(rebind_idx)
+            for i, st in enumerate(df.node.body[:last_conv + 1]):
+                for n in ast.walk(st):
+                    if isinstance(n, ast.Name) and n.id == tpn and \
+                            isinstance(n.ctx, ast.Load):
+                        p_ = parent(n)
+                        if isinstance(p_, ast.Attribute) and \
+                                p_.attr in ALLOWED:
+                            continue
+                        early.append(n)
+        rep.check(not early, rule, ctx.fkey(df, None, "no-early-use"),
+                  df.loc(early[0]) if early else df.loc(),
+                  "before the last representation/zone conversion the point "
+                  "is only tested and converted",
+                  "the dumper uses the time point (%s) before its last "
+                  "representation/zone conversion: values such as the year "
+                  "are then taken from the unconverted point (a year bounds "
+                  "check on it misses a year that the conversion rolls over)"
+                  % sorted({U(parent(n))[:50] for n in early}),
+                  P6 + ("C08",))
         if conv_if is not None:
             rebinds = [n for n in ast.walk(conv_if)
                        if isinstance(n, ast.Assign) and
